@@ -323,6 +323,8 @@ class Run:
         ok, log = lake_build(list(mods) + ['GeoVerif.Drv.Main'] + list(extra_targets))
         self.proof['build_ok'] = ok
         self.proof['obligations'] = len(theorems)
+        self.proof['theorems'] = list(theorems)
+        self.proof['modules'] = list(mods)
         if not ok:
             # which module failed?
             bad = re.findall(r'^- (\S+)', log, flags=re.M)
@@ -475,6 +477,8 @@ class Run:
             'checker_cmd': checker_cmd,
             'trusted_base': TRUSTED_BASE,
             'axioms_used': self.proof.get('axioms', []),
+            'theorems': self.proof.get('theorems', []),
+            'lean_modules': self.proof.get('modules', []),
             'proof_broken': self._broken_names(),
             'evaluations': self.evaluations,
             'distinct_nontrivial': len(self.distinct),
